@@ -74,7 +74,7 @@ def gen_case(rng, version=None, profile=None, keylen=None, mask="auto", valid_kb
              + rstr(rng, 1, ALNUM) + "00" + (rstr(rng, 2, ALNUM) if rng.random() < 0.5 else "00"))
     blocks = gen_blocks(rng, profile)
     if keylen is None:
-        keylen = rng.choice([0, 1, 5, 6, 7, 8, 13, 14, 15, 16, 21, 22, 23, 24, 29, 30, 31, 32, 33, 48, rng.randrange(0, 70)])
+        keylen = rng.choice(list(range(0, 34)) + [8, 16, 24, 32, 48, rng.randrange(0, 70)])      # every small length: 2, 3, 4 bytes are 16, 24, 32 bits
     key = rng.randbytes(keylen)
     if mask == "auto":
         mask = rng.choice([None, None, -8, -1, 0, max(0, keylen - 3), keylen, keylen + 1, keylen + 9, 24, 32, 40, 64])
